@@ -4491,6 +4491,14 @@ func (e *ExpressionEmitter) isPointerExpression(handle ir.ExpressionHandle) bool
 		if e.ssaEntryArgs != nil && e.ssaEntryArgs[int(k.Index)] {
 			return false
 		}
+		// An f16 input declared as f32 by the 16-bit I/O polyfill is not addressable at
+		// its IR type: an access chain into it would name an f16 component of an f32
+		// variable. Treat it as a value (loaded as f32 and converted, then extracted).
+		if int(k.Index) < len(e.paramIDs) {
+			if _, polyfilled := e.backend.f16PolyfillVars[e.paramIDs[k.Index]]; polyfilled {
+				return false
+			}
+		}
 		return true
 	case ir.ExprAccessIndex:
 		return e.isPointerExpression(k.Base)
